@@ -326,6 +326,10 @@ func c15RunMC(c *Ctx, pool *Pool, name, cfg string, files map[string]string, nar
 		v := vecs[j.Tag]
 		delete(vecs, j.Tag)
 		mu.Unlock()
+		if r.Class == "timeout" || r.Class == "budget" { // an overloaded machine: inconclusive, never a violation
+			stats["inconclusive_worker_timeouts"]++
+			return
+		}
 		if r.Class != "ok" || len(r.Hist) != 3 {
 			c.Violation("worker", map[string]any{"result": r, "ops": v.Ops})
 			return
@@ -956,7 +960,7 @@ func c15Tail(b []byte) string {
 func checkC15(c *Ctx) {
 	c.Assume("operations are applied through the name that holds the array; what a stored COPY of an array shows after the array's length changed is C09's alias question (alias-length) and is not compared")
 	c.Assume("sort of an array that holds containers (string form of a container), an array pushed into itself, ++ of an element that is a container and ++ of an index past the end (creation: C09) are not fixed by the statement and are not generated; an index read past the end and a read of a missing object member are null and change nothing, also as arguments of push")
-	c.Assume("element values: small integers, short strings, null, true; numeric strings only \"10\"; argument-count errors are not exercised")
+	c.Assume("element values of the histories: small integers, short strings, null, true; numeric strings only \"10\"; argument-count errors are not exercised. sortform: numbers are the 17 exact dyadic values of MC_SortForm.Pool (3 ... 2^70, 2^-1 ... 2^-20, negatives, 0; no negative zero, no non-finite numbers), strings printable ASCII without quotes / backslashes")
 	c.Assume("arrays live in variables (a, b, c), in fields of the input document ($.a, $.b, $.c) and inside other containers (o.p, q[0], w.z.y); every history runs in all three placements")
 	c.Assume("a receiver is a name or an element a[i] of a named array; receivers that are call results (a.pop().push(1)) work on a copy of the slice header (C09's alias question) and are not generated; a method of a missing or scalar element is C16's")
 	pool := c.Pool()
@@ -990,9 +994,12 @@ func checkC15(c *Ctx) {
 	fam("long", func() {
 		c15RunMC(c, pool, "long", c15Cfg("given", 0), map[string]string{"given.json": c15LongHistories(c.Seed, nlong)}, 3, stats, tags)
 	})
+	// sort by string form over numbers of every magnitude (MC_SortForm)
+	fam("sortform", func() { c15SortForm(c, pool, stats, tags) })
 	fam("traces", func() { c15Traces(c, pool) })
 	for _, t := range []string{"law:push", "law:pop", "law:popfirst", "law:length", "law:poppush", "law:fifo", "law:sort", "law:sortstable", "law:sortnumeric",
-		"law:contains", "law:containserr", "law:get", "law:neg", "law:set", "law:nested", "law:pushabsent", "law:inc", "law:recv", "law:recvmoved", "dev:ok", "dev:wild", "dev:error"} {
+		"law:contains", "law:containserr", "law:get", "law:neg", "law:set", "law:nested", "law:pushabsent", "law:inc", "law:recv", "law:recvmoved", "dev:ok", "dev:wild", "dev:error",
+		"sf:mixed", "sf:allnum", "sf:tie", "sf:strbelow", "sf:numstr", "sf:moved", "sf:flip"} {
 		if tags[t] == 0 && only == "" {
 			infra("C15: vacuity guard: nothing exercised %q (model or alphabet changed?)", t)
 		}
@@ -1003,9 +1010,9 @@ func checkC15(c *Ctx) {
 		"with result, contents and lengths after every statement; nested / nestedbig: the same on arrays that hold arrays (a = [[1], [2, 5]], b = [[3], 5, [5, 2]]) with a[i].m(args) "+
 		"whose arguments pop / popfirst / read a itself (<= nested_ops over SmallN, <= nestedbig_ops over BigN); long: seeded histories of 2-4 statements on arrays of up to 45 elements "+
 		"with many elements that tie under sort's order (MC_List Mode given, expectations from the spec's stable sort); each is run with the arrays in "+
-		"variables, in $ and inside other containers; non-trivial = at least two statements; distinct by program. Trace_List validates seeded random histories of 200-2000 statements (queue idiom) recorded from the real code, contents compared after every 16th statement")
-	c.Set("checker_cmd", "tlc MC_List (Mode depth / breadth / nested / nestedbig / given), tlc Trace_List; replay and recording through lang.EvalProgram")
-	c.Set("bounds", map[string]int{"depth_ops": depth, "breadth_ops": breadth, "nested_ops": nestedDepth, "nestedbig_ops": nestedBig, "long_histories": nlong})
+		"variables, in $ and inside other containers; non-trivial = at least two statements; distinct by program. sortform: MC_SortForm emits, for each picked number x of its pool (quick: four chosen by the seed, one of every magnitude class; thorough: all 17), every array of <= sortform_len elements over {x, another number, the prefixes of x's string form, the form itself, the form + \" \", the form + \"0\", \"\", \"x\", \"1e\", null, true} with its stably sorted copy under JqValue.StrOf / StrCmp / NumCmp, then one of push / pop / popfirst / a[0] = number and the sorted copy again; run in the three placements, output compared line by line. Trace_List validates seeded random histories of 200-2000 statements (queue idiom) recorded from the real code, contents compared after every 16th statement")
+	c.Set("checker_cmd", "tlc MC_List (Mode depth / breadth / nested / nestedbig / given), tlc MC_SortForm, tlc Trace_List; replay and recording through lang.EvalProgram")
+	c.Set("bounds", map[string]int{"depth_ops": depth, "breadth_ops": breadth, "nested_ops": nestedDepth, "nestedbig_ops": nestedBig, "long_histories": nlong, "sortform_len": map[bool]int{false: 2, true: 3}[c.Thorough()]})
 	c.Set("histories", stats)
 	c.Set("exercised", tags)
 }
